@@ -10,5 +10,7 @@ CONSTANTS
   AcceptTopBit = FALSE
   LimitPerFrame = FALSE
   PongEmpty = FALSE
+  BufSizes = {0, 1, 2, 13, 14, 15, 64, 124, 125, 126, 1024}
+  CtlNeedsBuffer = FALSE
 INVARIANTS EmitEnd
 CHECK_DEADLOCK FALSE
